@@ -988,7 +988,7 @@ def programs(variant, tier, eol):
     if eol == "lf":
         yield from gen_access(spec, level)
     yield from gen_concat(level)
-    yield from gen_replace(spec, level, 0 if tier == "quick" else None)
+    yield from (gen_replace(spec, 0, 0) if tier == "quick" else gen_replace(spec, level))
     if eol == "lf" or tier == "thorough":
         yield from gen_isolation(spec, level)
     if eol == "lf":
